@@ -167,8 +167,14 @@ func drawCase(t *rapid.T) *tcase {
 		}
 		p.Allocations = allocs
 		if c.mode == "expiry" {
-			p.Type = api.DataType
-			p.MaxDepth = p.Mode.ToPinDepth()
+			// shard and cluster-DAG entries of a sharded add carry the expiry
+			// too; they cannot be unpinned directly (the sweep's Unpin fails for
+			// them) and are kept in one case out of three
+			if p.Type == api.DataType || rapid.IntRange(0, 2).Draw(t, "keepType") != 0 {
+				p.Type = api.DataType
+				p.Reference = nil
+				p.MaxDepth = p.Mode.ToPinDepth()
+			}
 			switch rapid.IntRange(0, 2).Draw(t, "exp") {
 			case 0:
 				p.ExpireAt = time.Time{}
@@ -379,6 +385,11 @@ func TestRehome(t *testing.T) {
 					if c.follower[i] {
 						t.Fatalf("follower instance %d unpinned expired pin %s\ncase: %s", i, k, c)
 					}
+				}
+				if expired && p.Type != api.DataType {
+					// cannot be unpinned on its own; the sweep must get past it
+					classes = append(classes, "expired-undeletable")
+					continue
 				}
 				if expired {
 					classes = append(classes, "expired-pin")
